@@ -371,6 +371,32 @@ def gen_space(rng, dim, p, n0, nref, disparity, truncate, maxlevels=4, kvs=None)
     return hs, hist
 
 
+def model_units(hs):
+    """cost of one exact `representFine` of the finest level in the Lean model: the literal product eye(N_k) @ T_{k-1} @ ...
+    costs N_k^2 N_{k-1} exact rational additions per level (measured ~1.7e-7 s each)"""
+    N = [int(hs.mesh(k).numbf) for k in range(hs.numlevels)]
+    return sum(N[-1] * N[k] * N[k - 1] for k in range(1, len(N)))
+
+
+class Budget:
+    """keeps the exact-arithmetic model work of a run bounded: a space is generated with fewer levels until one
+    representFine costs at most `per_space` units, and once `total` units are spent only cheap spaces are admitted"""
+    def __init__(self, per_space, total, cheap=3e6):
+        self.per_space = per_space; self.total = total; self.cheap = cheap; self.spent = 0.0
+
+    def cap(self):
+        return self.per_space if self.spent < self.total else self.cheap
+
+    def generate(self, make, maxlev):
+        hs = hist = None
+        for ml in range(maxlev, 0, -1):
+            hs, hist = make(ml)
+            if model_units(hs) <= self.cap():
+                break
+        self.spent += model_units(hs)
+        return hs, hist
+
+
 def describe(dim, p, n0, disparity, truncate, hist):
     return {'dim': dim, 'p': p, 'n0': list(n0), 'disparity': (None if disparity == np.inf else int(disparity)),
             'truncate': bool(truncate), 'refine_history': hist}
@@ -453,6 +479,8 @@ def run(ctx):
     # ------------------------------------------------------------ stream hprol
     spaces = []
     nsp = 36 if quick else 400
+    # ~14 representFine-equivalents are requested per space: quick <= ~40 s, thorough <= ~10 min of model time
+    budget = Budget(per_space=7e7, total=3e8) if quick else Budget(per_space=6e7, total=3e8, cheap=4e6)
     for it in range(nsp):
         dim = 1 if it % 3 else 2
         p = int(rng.integers(1, 4)) if dim == 1 else int(rng.integers(1, 3 if quick else 4))
@@ -461,13 +489,14 @@ def run(ctx):
         truncate = bool(rng.integers(0, 2))
         maxlev = 4 if dim == 1 else (3 if quick else 4)
         try:
-            hs, hist = gen_space(rng, dim, p, n0, int(rng.integers(1, 5)), disparity, truncate, maxlev)
+            nref = int(rng.integers(1, 5))
+            hs, hist = budget.generate(lambda ml: gen_space(rng, dim, p, n0, nref, disparity, truncate, ml), maxlev)
         except Exception as ex:   # a mutated tree may raise here: treated as disagreement of stream `hier-gen`
             ctx.violation('hprol:generate', 'refinement raised %s' % type(ex).__name__, {'dim': dim, 'p': p, 'n0': n0}, False)
             continue
         spaces.append((hs, describe(dim, p, n0, disparity, truncate, hist)))
     # anisotropic spaces: equal degree and equal numdofs per direction, different knots (uniform x graded x repeated)
-    naniso = 8 if quick else 80
+    naniso = 8 if quick else 60
     for it in range(naniso):
         dim = 3 if it % 4 == 3 else 2
         p = 1 if dim == 3 else int(rng.integers(1, 4))
@@ -475,7 +504,9 @@ def run(ctx):
         truncate = bool(rng.integers(0, 2))
         try:
             kvs, order = aniso_kvs(rng, dim, p)
-            hs, hist = gen_space(rng, dim, p, None, int(rng.integers(1, 4)), disparity, truncate, (2 if quick else 3) if dim == 3 else 3, kvs=kvs)
+            nref = int(rng.integers(1, 4))
+            hs, hist = budget.generate(lambda ml: gen_space(rng, dim, p, None, nref, disparity, truncate, ml, kvs=kvs),
+                                       (2 if quick else 3) if dim == 3 else 3)
         except Exception as ex:
             ctx.violation('hprol:generate', 'refinement raised %s: %s' % (type(ex).__name__, ex), {'dim': dim, 'p': p, 'anisotropic': True}, False)
             continue
@@ -674,6 +705,7 @@ def run(ctx):
                    ndis - nknown[0] == 0, '%d disagreements, %d of them reproduced by the oracle as listed known findings' % (ndis, nknown[0]))
     ctx.extra['requests'] = len(req)
     ctx.extra['requests_by_kind'] = nreq
+    ctx.extra['model_units_spent'] = budget.spent
 
     # ------------------------------------------------------------ model-free oracle on the implementation (the property itself)
     orng = np.random.default_rng(ctx.seed + 11)
